@@ -111,7 +111,8 @@ PLAN_CACHE = 6
 
 def _classes():
     import cpppo
-    return {'str': cpppo.regex, 'bytes': cpppo.regex_bytes, 'promote': cpppo.regex_bytes_promote, 'bytes-fsm': cpppo.regex_bytes}
+    return {'str': cpppo.regex, 'bytes': cpppo.regex_bytes, 'promote': cpppo.regex_bytes_promote, 'bytes-fsm': cpppo.regex_bytes,
+            'strbytes': cpppo.string_bytes}      # the collecting wrapper without decode=: documented to hand back the raw bytes
 
 
 def fsm_of(ast):
@@ -141,13 +142,15 @@ def rctx_of(mode, rx):
     """Half of the machines (not the promoting ones) are built with a regex_context: the consumed prefix is then documented to be
     collected at <context>.<regex_context>.input instead of <context>.input."""
     import zlib
-    return 'head' if mode != 'promote' and zlib.crc32(rx.encode('utf-8')) % 2 else None
+    return 'head' if mode not in ('promote', 'strbytes') and zlib.crc32(rx.encode('utf-8')) % 2 else None
 
 
 def _build(mode, rx, ast):
     """-> (machine, None) or (None, exception)"""
     cls = _classes()[mode]
     kw = {'regex_context': rctx_of(mode, rx)} if rctx_of(mode, rx) else {}
+    if mode == 'strbytes':
+        kw = {'greedy': True}       # (the wrapper defaults to greedy=False; greedy=True is the longest-prefix machine of the statement)
     try:
         return cls(name='c11', context=CTX, initial=fsm_of(ast) if mode == 'bytes-fsm' else rx, terminal=True, **kw), None
     except AssertionError as exc:
@@ -240,6 +243,11 @@ def drive(machine, inp, cuts, rctx=None):
             exc = 'NonTerminal'
         terminal = bool(machine.terminal)
     promoted = data.get(CTX)
+    if isinstance(promoted, (bytes, str)) and not isinstance(promoted, array.array):
+        # the collecting wrapper stored its result (bytes for a bytes machine without decode=)
+        peek = source.peek()
+        return {'sent': source.sent, 'stored': promoted, 'stored_at': CTX, 'terminal': terminal, 'exc': exc, 'peek': peek, 'hung': hung,
+                'unfed_chunks': len(rest)}
     if isinstance(promoted, array.array):
         stored, where = promoted, CTX
     else:
@@ -671,7 +679,7 @@ class Tape(object):
 @st.composite
 def random_cases(draw):
     kind = draw(st.sampled_from(['str', 'str', 'ascii', 'mb', 'mb', 'mb+wild', 'mb+wild', 'refuse', 'arbitrary']))
-    mode = draw(st.sampled_from(['bytes', 'bytes', 'promote']))
+    mode = draw(st.sampled_from(['bytes', 'bytes', 'promote', 'strbytes']))
     via_fsm = draw(st.integers(0, 3)) == 3
     sym = draw(st.sampled_from(MB_SYMS))
     other = draw(st.sampled_from(['a', sibling(sym)]))
